@@ -10,3 +10,5 @@ import Gittuf.Proofs.CacheLoop
 #print axioms Gittuf.World.C08_F29_witness
 #print axioms Gittuf.World.C08_lookup_refines
 #print axioms Gittuf.World.relLoopC_verdict
+#print axioms Gittuf.Cache.C08_inserts_sorted
+#print axioms Gittuf.Cache.C08_lookup_after_inserts
